@@ -864,17 +864,27 @@ func (m *MutableOverlayWorld) AddFeature(f Feature) error {
 
 	existing := (*m.features)[f.FeatureID()]
 	references := allReferences(f, m)
-	if existing != nil {
+	if len(references) > 0 {
+		// Validate the features that reference f as they would be following
+		// the replacement, whether the feature being replaced currently
+		// lives in this overlay or only in the base.
+		restore := func() {
+			if existing != nil {
+				(*m.features)[f.FeatureID()] = existing
+			} else {
+				delete(*m.features, f.FeatureID())
+			}
+		}
 		(*m.features)[f.FeatureID()] = f
 
 		for _, reference := range references {
 			if err := ValidateFeature(NewFeatureFromWorld(reference), &ValidateOptions{InvertClockwisePaths: false}, m); err != nil {
-				(*m.features)[f.FeatureID()] = existing
+				restore()
 				return err
 			}
 		}
 
-		(*m.features)[f.FeatureID()] = existing
+		restore()
 	}
 
 	modified := NewModifiedFeaturesWithCopies(f, references, m.features, m)
